@@ -283,6 +283,40 @@ pub fn run_check(prop: &'static str, tier: &str, threads: usize, seed: u64) -> i
         }
     }
 
+    // ---- search self-check (thorough): the first level explored twice with different root
+    // orders must give identical state and transition counts
+    let mut self_check: Option<serde_json::Value> = None;
+    if tier == "thorough" {
+        if let Some((name, level)) = p.scenarios.first() {
+            if let Some(mut sc) = scen::build(name, *level) {
+                if plan::clone_checks_for(prop) {
+                    sc.clone_checks = true;
+                }
+                let sc = scen::leak(sc);
+                let mk = |seed: u64| RunCfg {
+                    threads,
+                    budget_s: 120.0,
+                    max_states: 600_000_000,
+                    depth_cap: 400,
+                    seed,
+                    targets: vec![],
+                    rss_cap_gb: 45.0,
+                    state_hook: None,
+                };
+                let a = explore(sc, &mk(seed.wrapping_add(1)));
+                let b = explore(sc, &mk(seed.wrapping_add(7919)));
+                if a.exhaustive && b.exhaustive && (a.states != b.states || a.transitions != b.transitions) {
+                    eprintln!(
+                        "machinery: search self-check failed on {}: ({}, {}) vs ({}, {})",
+                        a.scenario, a.states, a.transitions, b.states, b.transitions
+                    );
+                    return 2;
+                }
+                self_check = Some(json!({"scenario": a.scenario, "states": [a.states, b.states], "transitions": [a.transitions, b.transitions], "agree": a.states == b.states && a.transitions == b.transitions}));
+            }
+        }
+    }
+
     // ---- cluster scenarios, level by level
     for (name, level) in &p.scenarios {
         if exit == 1 {
@@ -407,14 +441,16 @@ pub fn run_check(prop: &'static str, tier: &str, threads: usize, seed: u64) -> i
             "monitor_counters": stat_json,
             "explanation": p.explanation,
             "known_findings_reported": known_lines,
+            "search_self_check": self_check,
         },
         "assumptions": p.assumptions,
         "wall_s": (wall * 10.0).round() / 10.0,
         "violations": violations,
     });
-    let _ = std::fs::create_dir_all("/verif/evidence");
+    let evdir = std::env::var("VERIF_EVIDENCE_DIR").unwrap_or_else(|_| "/verif/evidence".to_string());
+    let _ = std::fs::create_dir_all(&evdir);
     if let Err(e) = std::fs::write(
-        format!("/verif/evidence/{}.json", prop),
+        format!("{}/{}.json", evdir, prop),
         serde_json::to_string_pretty(&ev).unwrap(),
     ) {
         eprintln!("machinery: cannot write evidence: {}", e);
